@@ -18,7 +18,7 @@ Tie (model <-> code):
     SELECT on the same connection.
 Witnesses of the three places where the code as it is violates the property are replayed on every run.
 """
-import ast, datetime, gc, itertools, json, random, re, sys, traceback
+import ast, datetime, decimal, gc, itertools, uuid, json, random, re, sys, traceback
 from pony.orm import (Database, Required, Optional, Set, PrimaryKey, db_session, select, count, sum as psum, min as pmin, max as pmax,
                       avg, desc, raw_sql, commit, rollback, flush, delete, exists, get as pget)
 from pony.orm import core, asttranslation, decompiling, ormtypes
@@ -194,6 +194,12 @@ def build():
         s = Required(str, autostrip=False)
         d = Optional(date)
         lz = Optional(str, lazy=True, nullable=True, autostrip=False)
+        dec = Optional(decimal.Decimal, precision=10, scale=2)
+        dt = Optional(datetime.datetime)
+        tm = Optional(datetime.time)
+        td = Optional(datetime.timedelta)
+        uu = Optional(uuid.UUID)
+        fl = Optional(float)
         g = Optional(G)
         tags = Set(T)
         def before_insert(self): run_hook()
@@ -206,7 +212,10 @@ def build():
         rows = [(0, None, 'ab', None, None, 0, [0]), (1, 1, 'abc', date(2020, 1, 1), 'L1', 0, [0, 1]), (2, None, 'b%', date(2021, 6, 1), 'L2', 1, []),
                 (3, 3, 'x_y', None, None, None, [2]), (3, 0, '', date(2020, 1, 1), 'L4', 1, [1, 2]), (5, 2, 'abcd', date(1999, 12, 31), None, None, [])]
         for a, b, s, d, lz, g, tg in rows:
-            P(a=a, b=b, s=s or 'z', d=d, lz=lz, g=gs[g] if g is not None else None, tags=[ts[i] for i in tg])
+            P(a=a, b=b, s=s or 'z', d=d, lz=lz, g=gs[g] if g is not None else None, tags=[ts[i] for i in tg],
+              dec=None if b is None else decimal.Decimal('%d.50' % (b + a)), dt=None if d is None else datetime.datetime(d.year, d.month, d.day, 10 + a, 30),
+              tm=None if b is None else datetime.time(8 + b, 15), td=None if d is None else datetime.timedelta(hours=a, minutes=5),
+              uu=None if b is None else uuid.UUID(int=1000 + a + 16 * b), fl=None if b is None else a + 0.25)
     return db, P, G, T
 
 
@@ -403,6 +412,50 @@ def q_join(P, G, left):
     from pony.orm import left_join as lj
     gen = _pairs(G)
     return srt((lj if left else select)(gen)[:])
+# every aggregate entry point over attribute types whose sql2py is not the identity, executed TWICE in the session (the second answer may
+# come from cache.query_results): value AND type must be those of a cold execution; x beyond every row gives the empty-SUM case
+AGG_ATTRS = ['d', 'dec', 'dt', 'tm', 'td', 'uu', 'fl', 'a', 's', 'b']
+def _attr_q(P, name, x):
+    if name == 'd': return select(p.d for p in P if p.a > x)
+    if name == 'dec': return select(p.dec for p in P if p.a > x)
+    if name == 'dt': return select(p.dt for p in P if p.a > x)
+    if name == 'tm': return select(p.tm for p in P if p.a > x)
+    if name == 'td': return select(p.td for p in P if p.a > x)
+    if name == 'uu': return select(p.uu for p in P if p.a > x)
+    if name == 'fl': return select(p.fl for p in P if p.a > x)
+    if name == 'a': return select(p.a for p in P if p.a > x)
+    if name == 's': return select(p.s for p in P if p.a > x)
+    return select(p.b for p in P if p.a > x)
+def q_aggr(P, func, name, x):
+    def once():
+        q = _attr_q(P, name, x)
+        if func == 'group_concat':
+            r = q.group_concat('|')
+            return None if r is None else sorted(r.split('|'))
+        return getattr(q, func)()
+    return [once(), once()]
+def q_aggr_top(P, func, name, x):
+    # the top-level functions: max(p.d for p in P if ...) etc. (make_aggrfunc -> select(gen).max())
+    def once():
+        if name == 'd': gen = (p.d for p in P if p.a > x)
+        elif name == 'dec': gen = (p.dec for p in P if p.a > x)
+        elif name == 'dt': gen = (p.dt for p in P if p.a > x)
+        elif name == 'tm': gen = (p.tm for p in P if p.a > x)
+        elif name == 'td': gen = (p.td for p in P if p.a > x)
+        elif name == 'fl': gen = (p.fl for p in P if p.a > x)
+        else: gen = (p.a for p in P if p.a > x)
+        return {'max': pmax, 'min': pmin, 'sum': psum, 'avg': avg, 'count': count}[func](gen)
+    return [once(), once()]
+def q_aggr_sel(P, func, name, x):
+    # aggregate inside the query expression: select(max(p.d) for p in P if ...) — a fetch, converted by the row layout
+    def once():
+        if func == 'max':
+            q = {'d': lambda: select(pmax(p.d) for p in P if p.a > x), 'dec': lambda: select(pmax(p.dec) for p in P if p.a > x),
+                 'dt': lambda: select(pmax(p.dt) for p in P if p.a > x)}.get(name, lambda: select(pmax(p.a) for p in P if p.a > x))()
+        else:
+            q = {'dec': lambda: select(psum(p.dec) for p in P if p.a > x), 'fl': lambda: select(psum(p.fl) for p in P if p.a > x)}.get(name, lambda: select(psum(p.a) for p in P if p.a > x))()
+        return q.get()
+    return [once(), once()]
 def q_rawq(P, x): return srt(select(p.id for p in P if raw_sql("p.a > $x"))[:])
 def q_rawexpr(P, x): return srt(select((p.id, raw_sql("p.a + $x")) for p in P)[:])
 def r_select(db, x): return srt(db.select("select id from P where a > $x"))
@@ -442,6 +495,7 @@ class Env(object):
 QUERIES = {f.__name__: f for f in [q_cmp, q_cmpb, q_ne, q_date, q_str, q_in, q_slice, q_slice1, q_slice2, q_getattr, q_obj, q_fcall, q_lambda, q_lambda_s,
                                   q_strq, q_strq2, q_strlambda, q_filter, q_filter_s, q_where_a, q_where_b, q_order_s, q_order_d, q_order_l,
                                   q_count, q_sum, q_min, q_max, q_avg, q_countd, q_exists, q_first, q_get, q_page, q_limit, q_distinct, q_nodistinct,
+                                  q_aggr, q_aggr_top, q_aggr_sel,
                                   q_order_attr, q_order_num,
                                   q_lam_select, q_lam_filter, q_lam_where, q_lam_exists, q_lamtext_select, q_lamtext_filter,
                                   q_text_order_by, q_text_sort_by, q_text_filter, q_text_where, q_zf_order_by, q_zf_filter, q_zf_where,
@@ -456,9 +510,17 @@ DBQ = {f.__name__: f for f in [r_select, r_select_pct, r_select_pct2, r_get, r_e
 
 def jsonable(x):
     if isinstance(x, (list, tuple)): return [jsonable(i) for i in x]
-    if isinstance(x, (date, datetime.datetime)): return x.isoformat()
-    if isinstance(x, float): return round(x, 6)
-    if isinstance(x, (int, str, bool)) or x is None: return x
+    # the TYPE is part of the observation: '2021-03-04' is not date(2021, 3, 4), 7.5 is not Decimal('7.5')
+    if isinstance(x, datetime.datetime): return ['datetime', x.isoformat()]
+    if isinstance(x, date): return ['date', x.isoformat()]
+    if isinstance(x, datetime.time): return ['time', x.isoformat()]
+    if isinstance(x, datetime.timedelta): return ['timedelta', x.total_seconds()]
+    if isinstance(x, decimal.Decimal): return ['Decimal', str(x)]
+    if isinstance(x, uuid.UUID): return ['UUID', str(x)]
+    if isinstance(x, bytes): return ['bytes', x.hex()]
+    if isinstance(x, bool) or x is None: return x
+    if isinstance(x, float): return ['float', round(x, 6)]
+    if isinstance(x, (int, str)): return x
     if hasattr(x, '_pk_'): return [type(x).__name__, x.id]
     return repr(x)
 
@@ -607,6 +669,12 @@ def gen_value(rng, kinds):
     if k == 'tuple': return ['@tuple'] + [rng.choice(INTS) for _ in range(rng.choice([0, 1, 2, 3]))]
     if k == 'list': return ['@list'] + [rng.choice(INTS) for _ in range(rng.choice([0, 1, 2, 3]))]
     if k == 'strtuple': return ['@tuple'] + [rng.choice(['a', 'b']) for _ in range(rng.choice([1, 2]))]
+    if k == 'aggf': return rng.choice(['sum', 'min', 'max', 'avg', 'count', 'group_concat'])
+    if k == 'aggf5': return rng.choice(['sum', 'min', 'max', 'avg', 'count'])
+    if k == 'aggf2': return rng.choice(['max', 'sum'])
+    if k == 'aggattr': return rng.choice(AGG_ATTRS)
+    if k == 'aggattr7': return rng.choice(AGG_ATTRS[:7] + ['a'])
+    if k == 'aggx': return rng.choice([-1, 0, 1, 2, 9])
     if k == 'five': return rng.randrange(5)
     if k == 'two': return rng.randrange(2)
     if k == 'txt': return rng.randrange(4)
@@ -639,6 +707,7 @@ QSPEC = [   # (step, argument kinds per position, weight)
     ('e_select_ab', [['int'], ['int', 'none']], 2),
     ('q_count_d', [['int'], ['tri']], 3), ('q_sum_d', [['int'], ['tri']], 1), ('q_avg_d', [['int'], ['tri']], 1), ('q_gc', [['int'], ['sep'], ['tri']], 1),
     ('q_count_ent_d', [['int'], ['tri']], 1), ('q_nested_slice', [['bound', 'none'], ['bound', 'none']], 2),
+    ('q_aggr', [['aggf'], ['aggattr'], ['aggx']], 6), ('q_aggr_top', [['aggf5'], ['aggattr7'], ['aggx']], 3), ('q_aggr_sel', [['aggf2'], ['aggattr'], ['aggx']], 2),
     ('q_order_attr', [['five']], 2), ('q_order_num', [['txt']], 1),
     ('q_lam_select', [['zf']], 2), ('q_lam_filter', [['zf']], 2), ('q_lam_where', [['zf']], 1), ('q_lam_exists', [['zf']], 1),
     ('q_lamtext_select', [['two']], 1), ('q_lamtext_filter', [['two']], 1),
@@ -824,7 +893,9 @@ def random_histories(ctx):
     flush_protocol(ctx)
 
 
-POOL = {'five': [0, 1, 2, 3, 4], 'two': [0, 1], 'txt': [0, 1, 2, 3], 'zf': [0, 1, 2], 'lim': [1, 2, 3], 'tri': [None, False, True], 'sep': [None, ',', '|'], 'cond': [0, 1, 2, 3, 4, 5], 'bound': [1, 2, 3, -1, -2], 'int': [1, 3, -1], 'none': [None], 'str': ['ab', 'b%'], 'date': [['@date', 2020, 1, 1], ['@date', 2021, 1, 1]], 'bool': [True], 'float': [1.5],
+POOL = {'aggf': ['sum', 'min', 'max', 'avg', 'count', 'group_concat'], 'aggf5': ['sum', 'min', 'max', 'avg', 'count'], 'aggf2': ['max', 'sum'],
+        'aggattr': ['d', 'dec', 'dt', 'tm', 'td', 'uu', 'fl', 'a', 's', 'b'], 'aggattr7': ['d', 'dec', 'dt', 'tm', 'td', 'fl', 'a'], 'aggx': [-1, 1, 9],
+        'five': [0, 1, 2, 3, 4], 'two': [0, 1], 'txt': [0, 1, 2, 3], 'zf': [0, 1, 2], 'lim': [1, 2, 3], 'tri': [None, False, True], 'sep': [None, ',', '|'], 'cond': [0, 1, 2, 3, 4, 5], 'bound': [1, 2, 3, -1, -2], 'int': [1, 3, -1], 'none': [None], 'str': ['ab', 'b%'], 'date': [['@date', 2020, 1, 1], ['@date', 2021, 1, 1]], 'bool': [True], 'float': [1.5],
         'tuple': [['@tuple'], ['@tuple', 1], ['@tuple', 1, 3]], 'list': [['@list', 1], ['@list', 0, 3]], 'strtuple': [['@tuple', 'a']],
         'obj': [['@obj', 'G', 1], ['@obj', 'G', 2]], 'pobj': [['@obj', 'P', 1]]}
 SPECIALS = [
